@@ -45,7 +45,7 @@ pub fn replay(args: &[String]) {
 			// the product v*255 is rounded once before round(): either neighbour is admissible there
 			let exp = r["act"].as_i64().unwrap();
 			let v = k as f64 / 1020.0;
-			for (ty, got) in [("f64", catch(|| Action::from(v))), ("f32", catch(|| Action::from(v as f32)))] {
+			for (ty, got) in [("f64", catch(|| Action::from(v))), ("f32", catch(|| Action::from(v as f32))), ("valuetype", catch(|| Action::from(v as yata::core::ValueType)))] {
 				out.checked += 1;
 				match got {
 					Err(e) => out.mismatch(&format!("Action:from_{ty}:panic"), json!({"v": v, "msg": e})),
@@ -122,6 +122,7 @@ pub fn replay(args: &[String]) {
 	for (v, exp) in specials {
 		out.cmp("Action:from_f64:special", || json!({"v": format!("{v:e}")}), &json!(exp), &json!(catch(|| code(Action::from(v))).unwrap_or(9999)));
 		out.cmp("Action:from_f32:special", || json!({"v": format!("{v:e}")}), &json!(exp), &json!(catch(|| code(Action::from(v as f32))).unwrap_or(9999)));
+		out.cmp("Action:from_valuetype:special", || json!({"v": format!("{v:e}")}), &json!(exp), &json!(catch(|| code(Action::from(v as yata::core::ValueType))).unwrap_or(9999)));
 	}
 	out.summary(json!({"rows": rows.len()}));
 }
